@@ -50,4 +50,4 @@ def run_shard(ctx):
     ctx.drive("index", gen.run_case(names=["T_HOO", "HCT", "VHCT"], laws=LAWS, hct_caps_inactive=True,
                                     T_max=300 if quick else 1000, n_range=(100, 300) if quick else (100, 1000),
                                     script_prob=0.25, T_min=5, full_T_prob=0.2),
-              check_case, ctx.budget(6000, 16000))
+              check_case, ctx.budget(6000, 40000))
